@@ -438,4 +438,10 @@ theorem isPath_of_rootToLeaf {t : RawTree} (w : WF t) {es : List (Level × Level
     rw [hlevel (j+1) hj0, childToParent_eq_some_iff s w.hNodup hj', isChild_iff w.dict] at hc
     simpa using hc.2
 
+/-! ### the example taxonomy of the C01/C06/C17 non-vacuity examples is validator-accepted -/
+
+theorem exTree_accepted : LevelLoop.exTree.validate = .ok () ∧ LevelLoop.exTree.hierarchy.Nodup ∧
+    DictOK LevelLoop.exTree ∧ HasNode LevelLoop.exTree :=
+  ⟨by rfl, by decide, dictOK_of_b (by decide), hasNode_of_wfb LevelLoop.exTree_wf⟩
+
 end CTM.Bridge
